@@ -643,6 +643,7 @@ class imp_conj_macro(Macro):
 
     def eval(self, goal, ths):
         # goal: A --> B
+        assert goal.is_implies(), "imp_conj: goal is not an implication"
         A, B = goal.arg1, goal.arg
         conjA = set(strip_conj(A)) - {true}
         conjB = set(strip_conj(B)) - {true}
